@@ -261,6 +261,12 @@ class Check:
         self.known_hits = []
         self.broken = []
         self.notes = {}
+        try:
+            for fn in os.listdir(REPLAY):
+                if fn.startswith(pid + "-"):
+                    os.unlink(os.path.join(REPLAY, fn))
+        except OSError:
+            pass
 
     def sample(self, s, cap=6):
         if len(self.cov["samples"]) < cap:
